@@ -45,76 +45,93 @@ type sortRes struct {
 	j     uint32
 }
 
-type e2eWorld struct {
-	seed     common.Hash
-	T, Tc    uint64
-	round    uint64
-	vals     []e2eVal
-	total    uint64 // chamber stake
-	totalH   uint64 // house stake
-	st       *state.StateDB
-	lb       *types.Header
-	yp       *params.YouParams
-	chain    *ucon.VerifC03Chain
-	srv      *ucon.VerifC03Server
-	vrfSk    []vrf.PrivateKey
-	blocks   map[uint64]*types.Block
-	byHash   map[common.Hash]uint64
-	parent   *types.Block
-	declared map[uint64]bool
-	cache    map[string]sortRes
-	verdicts []string
-	lastOK   bool
-	lastWhat string
-	w        *world
-	bls      bool
-	blsSk    []bls.SecretKey
-	commits  map[common.Hash]*types.Block // sealed blocks the real Server.commit produced (by block hash)
-	nMerged  int
+// valSet is the validator set recorded at one look-back height.
+type valSet struct {
+	vals   []e2eVal
+	st     *state.StateDB
+	total  uint64 // chamber stake
+	totalH uint64 // house stake
+	root   common.Hash
+	seed   common.Hash
+	hdr    *types.Header
 }
 
-var valRoot = common.HexToHash("0xc03c03")
+func (s *valSet) in(k uint64) bool { return int(k) < len(s.vals) && s.vals[k].flag != 3 }
+
+type e2eWorld struct {
+	T, Tc uint64
+	round uint64
+	// Look-back data by ROLE. Which height each role means is ground truth taken from the protocol parameters
+	// (CaravelParams.StakeLookBack / SeedLookBack, params.ACoCHTFrequency), not from the code under test:
+	//   stake  = validator set at round - StakeLookBack    (members, stakes, voter index of prevote/precommit/next votes, proposer)
+	//   seed   = header at     round - SeedLookBack         (sortition seed of those votes)
+	//   cstake = validator set at round - 2*ACoCHTFrequency (members, stakes, voter index of certificate votes)
+	//   cseed  = header at     round - ACoCHTFrequency      (sortition seed and parameters of certificate votes)
+	// Without HS lines all four roles are one header / one set (the worlds of the first rounds).
+	stake, seedSet, cstake, cseedSet *valSet
+	yp                               *params.YouParams
+	chain                            *ucon.VerifC03Chain
+	srv                              *ucon.VerifC03Server
+	vrfSk                            []vrf.PrivateKey
+	blocks                           map[uint64]*types.Block
+	byHash                           map[common.Hash]uint64
+	parent                           *types.Block
+	declared                         map[uint64]bool
+	cache                            map[string]sortRes
+	lastOK                           bool
+	lastWhat                         string
+	w                                *world
+	bls                              bool
+	blsSk                            []bls.SecretKey
+	commits                          map[common.Hash]*types.Block // sealed blocks the real Server.commit produced (by block hash)
+	nMerged                          int
+	history                          bool
+}
 
 var blsMgr = bls.NewBlsManager()
 
-func newE2EWorld(line string) (*world, error) {
-	f := strings.Fields(line)
-	if len(f) < 7 {
-		return nil, fmt.Errorf("bad E2E line")
+// setFor: the validator set a vote of kind vt is resolved against; seedFor: the seed its sortition uses.
+func (e *e2eWorld) setFor(vt uint64) *valSet {
+	if vt == 5 {
+		return e.cstake
 	}
+	return e.stake
+}
+func (e *e2eWorld) seedFor(vt uint64) common.Hash {
+	if vt == 5 {
+		return e.cseedSet.seed
+	}
+	return e.seedSet.seed
+}
+
+func lookBackHeight(n, back uint64) uint64 {
+	if n > back {
+		return n - back
+	}
+	return 0
+}
+
+func parseNums(f []string) ([]uint64, error) {
 	var a []uint64
-	for _, x := range f[1:] {
+	for _, x := range f {
 		n, err := strconv.ParseUint(x, 10, 64)
 		if err != nil {
 			return nil, err
 		}
 		a = append(a, n)
 	}
-	e := &e2eWorld{bls: f[0] == "E2EB", commits: map[common.Hash]*types.Block{}, T: a[1], Tc: a[2], round: a[3], blocks: map[uint64]*types.Block{}, byHash: map[common.Hash]uint64{}, declared: map[uint64]bool{}, cache: map[string]sortRes{}}
-	e.seed = crypto.Keccak256Hash([]byte{byte(a[0]), 0xc0, 0x03})
-	initKeys()
-	if len(a)-4 > nKeys {
-		return nil, fmt.Errorf("too many validators")
-	}
+	return a, nil
+}
+
+func (e *e2eWorld) buildSet(encs []uint64, tag byte, seedByte uint64) (*valSet, error) {
+	vs := &valSet{root: crypto.Keccak256Hash([]byte{0xc0, 0x03, tag}), seed: crypto.Keccak256Hash([]byte{byte(seedByte), 0xc0, 0x03, tag})}
 	st, err := state.New(common.Hash{}, common.Hash{}, common.Hash{}, state.NewDatabase(youdb.NewMemDatabase()))
 	if err != nil {
 		return nil, err
 	}
-	for k, enc := range a[4:] {
+	for k, enc := range encs {
 		v := e2eVal{stake: enc / 4, flag: enc % 4}
-		e.vals = append(e.vals, v)
-		sk, err := secp256k1VRF.NewVRFSigner(keys[k])
-		if err != nil {
-			return nil, err
-		}
-		e.vrfSk = append(e.vrfSk, sk)
-		bb := make([]byte, 32)
-		bb[0], bb[30], bb[31] = 0x1b, byte(k), 0x35
-		bsk, err := blsMgr.DecSecretKey(bb)
-		if err != nil {
-			return nil, err
-		}
-		e.blsSk = append(e.blsSk, bsk)
+		vs.vals = append(vs.vals, v)
 		if v.flag == 3 {
 			continue
 		}
@@ -127,7 +144,7 @@ func newE2EWorld(line string) (*world, error) {
 		}
 		pub := crypto.CompressPubkey(&keys[k].PublicKey)
 		addr := crypto.PubkeyToAddress(keys[k].PublicKey)
-		bpk, err := bsk.PubKey()
+		bpk, err := e.blsSk[k].PubKey()
 		if err != nil {
 			return nil, err
 		}
@@ -137,31 +154,126 @@ func newE2EWorld(line string) (*world, error) {
 			return nil, fmt.Errorf("CreateValidator failed for %d", k)
 		}
 	}
-	e.st = st
+	vs.st = st
 	stat, err := st.GetValidatorsStat()
 	if err != nil {
 		return nil, err
 	}
 	if ts := stat.GetStakeByKind(params.KindChamber); ts != nil {
-		e.total = ts.Uint64()
+		vs.total = ts.Uint64()
 	}
 	if ts := stat.GetStakeByKind(params.KindHouse); ts != nil {
-		e.totalH = ts.Uint64()
+		vs.totalH = ts.Uint64()
 	}
-	// protocol parameters: the current version with the world's thresholds; BLS off (the driven Voter signs with secp256k1)
+	return vs, nil
+}
+
+func (e *e2eWorld) header(vs *valSet, number uint64) *types.Header {
+	cons, _ := rlp.EncodeToBytes(&ucon.BlockConsensusData{Round: new(big.Int).SetUint64(number), RoundIndex: 1, Seed: vs.seed, SortitionProof: []byte{}, Signature: []byte{},
+		ProposerThreshold: e.yp.ProposerThreshold, ValidatorThreshold: e.T, CertValThreshold: e.Tc})
+	return &types.Header{Number: new(big.Int).SetUint64(number), ValRoot: vs.root, Consensus: cons, CurrVersion: params.YouCurrentVersion, MixDigest: types.UConMixHash,
+		GasRewards: new(big.Int), Subsidy: new(big.Int)}
+}
+
+// newE2EWorld: lines[0] is the E2E / E2EB header; `HS <role> v0 v1 ...` lines (role seed | cstake | cseed | other) give
+// the validator set recorded at the other look-back heights (a "history world").
+func newE2EWorld(line string, extra ...string) (*world, error) {
+	f := strings.Fields(line)
+	if len(f) < 7 {
+		return nil, fmt.Errorf("bad E2E line")
+	}
+	a, err := parseNums(f[1:])
+	if err != nil {
+		return nil, err
+	}
+	e := &e2eWorld{bls: f[0] == "E2EB", commits: map[common.Hash]*types.Block{}, T: a[1], Tc: a[2], round: a[3], blocks: map[uint64]*types.Block{}, byHash: map[common.Hash]uint64{}, declared: map[uint64]bool{}, cache: map[string]sortRes{}}
+	initKeys()
+	if len(a)-4 > nKeys {
+		return nil, fmt.Errorf("too many validators")
+	}
+	for k := 0; k < nKeys; k++ {
+		sk, err := secp256k1VRF.NewVRFSigner(keys[k])
+		if err != nil {
+			return nil, err
+		}
+		e.vrfSk = append(e.vrfSk, sk)
+		bb := make([]byte, 32)
+		bb[0], bb[30], bb[31] = 0x1b, byte(k), 0x35
+		bsk, err := blsMgr.DecSecretKey(bb)
+		if err != nil {
+			return nil, err
+		}
+		e.blsSk = append(e.blsSk, bsk)
+	}
+	if e.stake, err = e.buildSet(a[4:], 1, a[0]); err != nil {
+		return nil, err
+	}
+	e.seedSet, e.cstake, e.cseedSet = e.stake, e.stake, e.stake
+	other := e.stake
+	for _, l := range extra {
+		hf := strings.Fields(l)
+		if len(hf) < 3 || hf[0] != "HS" {
+			continue
+		}
+		encs, err := parseNums(hf[2:])
+		if err != nil {
+			return nil, err
+		}
+		e.history = true
+		switch hf[1] {
+		case "seed":
+			e.seedSet, err = e.buildSet(encs, 2, a[0])
+		case "cstake":
+			e.cstake, err = e.buildSet(encs, 3, a[0])
+		case "cseed":
+			e.cseedSet, err = e.buildSet(encs, 4, a[0])
+		case "other":
+			other, err = e.buildSet(encs, 5, a[0])
+		}
+		if err != nil {
+			return nil, err
+		}
+	}
+	// protocol parameters: the current version with the world's thresholds
 	yp := params.Versions[params.YouCurrentVersion]
 	yp.EnableBls = e.bls // E2EB: the path every shipped version uses; E2E: the secp256k1 path
 	yp.ValidatorThreshold, yp.CertValThreshold = e.T, e.Tc
 	// the proposer must be selected with >= 1 sub-user: proposer threshold = chamber stake gives p = 1, i.e. seats = stake
 	// (p = threshold/total stake must stay <= 1: gonum's binomial CDF panics otherwise)
-	yp.ProposerThreshold = e.total
+	yp.ProposerThreshold = e.stake.total
 	params.Versions[params.YouCurrentVersion] = yp
 	e.yp = &yp
-	lbCons, _ := rlp.EncodeToBytes(&ucon.BlockConsensusData{Round: big.NewInt(1), RoundIndex: 1, Seed: e.seed, SortitionProof: []byte{}, Signature: []byte{},
-		ProposerThreshold: yp.ProposerThreshold, ValidatorThreshold: e.T, CertValThreshold: e.Tc})
-	e.lb = &types.Header{Number: big.NewInt(1), ValRoot: valRoot, Consensus: lbCons, CurrVersion: params.YouCurrentVersion, MixDigest: types.UConMixHash,
-		GasRewards: new(big.Int), Subsidy: new(big.Int)}
-	e.chain = &ucon.VerifC03Chain{Params: e.yp, Default: e.lb, Headers: map[uint64]*types.Header{}, Readers: map[common.Hash]state.ValidatorReader{valRoot: st}, ByHash: map[common.Hash]*types.Header{}}
+	readers := map[common.Hash]state.ValidatorReader{}
+	headers := map[uint64]*types.Header{}
+	if !e.history {
+		e.stake.hdr = e.header(e.stake, 1)
+		readers[e.stake.root] = e.stake.st
+		e.chain = &ucon.VerifC03Chain{Params: e.yp, Default: e.stake.hdr, Headers: headers, Readers: readers, ByHash: map[common.Hash]*types.Header{}}
+	} else {
+		// ground truth: which height each look-back role means, from the parameters
+		F := params.ACoCHTFrequency
+		hs := map[string]uint64{"stake": lookBackHeight(e.round, yp.StakeLookBack), "seed": lookBackHeight(e.round, yp.SeedLookBack),
+			"cstake": lookBackHeight(e.round, 2*F), "cseed": lookBackHeight(e.round, F)}
+		sets := map[string]*valSet{"stake": e.stake, "seed": e.seedSet, "cstake": e.cstake, "cseed": e.cseedSet}
+		cert := e.round > 0 && e.round%F == 0
+		for _, role := range []string{"stake", "seed", "cstake", "cseed"} {
+			if !cert && (role == "cstake" || role == "cseed") {
+				continue // not looked up in an ordinary round
+			}
+			if prev, ok := headers[hs[role]]; ok && prev.ValRoot != sets[role].root {
+				return nil, fmt.Errorf("look-back heights of two roles coincide (%d): choose another round", hs[role])
+			}
+			sets[role].hdr = e.header(sets[role], hs[role])
+			headers[hs[role]] = sets[role].hdr
+			readers[sets[role].root] = sets[role].st
+		}
+		if !cert {
+			e.cstake.hdr, e.cseedSet.hdr = e.stake.hdr, e.seedSet.hdr
+		}
+		other.hdr = e.header(other, 7)
+		readers[other.root] = other.st
+		e.chain = &ucon.VerifC03Chain{Params: e.yp, Default: other.hdr, Headers: headers, Readers: readers, ByHash: map[common.Hash]*types.Header{}}
+	}
 	e.srv = ucon.NewVerifC03Server(e.chain, new(big.Int).SetUint64(e.round), 1)
 	// blocks
 	e.parent = types.NewBlock(&types.Header{Number: new(big.Int).SetUint64(e.round - 1), MixDigest: types.UConMixHash, Extra: []byte("parent"), GasRewards: new(big.Int), Subsidy: new(big.Int)}, nil, nil)
@@ -202,13 +314,13 @@ func newE2EWorld(line string) (*world, error) {
 
 // makeBlock builds a proposal of validator 1 as Server.Prepare does (consensus data with a real priority proof).
 func (e *e2eWorld) makeBlock(id uint64, index uint32) (*types.Block, error) {
-	if len(e.vals) < 2 || e.vals[1].flag != 0 || e.total == 0 {
+	if len(e.stake.vals) < 2 || e.stake.vals[1].flag != 0 || e.stake.total == 0 {
 		return nil, fmt.Errorf("validator 1 must be an online chamber member (the proposer)")
 	}
-	stake := new(big.Int).SetUint64(e.vals[1].stake)
-	total := new(big.Int).SetUint64(e.total)
-	value, proof, j := ucon.VrfSortition(e.vrfSk[1], e.seed, index, ucon.UConStepProposal, e.yp.ProposerThreshold, stake, total)
-	cd := &ucon.BlockConsensusData{Round: new(big.Int).SetUint64(e.round), RoundIndex: index, Seed: crypto.Keccak256Hash(e.seed[:]), SortitionProof: proof,
+	stake := new(big.Int).SetUint64(e.stake.vals[1].stake)
+	total := new(big.Int).SetUint64(e.stake.total)
+	value, proof, j := ucon.VrfSortition(e.vrfSk[1], e.seedSet.seed, index, ucon.UConStepProposal, e.yp.ProposerThreshold, stake, total)
+	cd := &ucon.BlockConsensusData{Round: new(big.Int).SetUint64(e.round), RoundIndex: index, Seed: crypto.Keccak256Hash(e.seedSet.seed[:]), SortitionProof: proof,
 		Priority: ucon.VrfComputePriority(value, j), SubUsers: j, ProposerThreshold: e.yp.ProposerThreshold, ValidatorThreshold: e.T, CertValThreshold: e.Tc}
 	if err := cd.SetSignature(keys[1]); err != nil {
 		return nil, err
@@ -222,7 +334,7 @@ func (e *e2eWorld) makeBlock(id uint64, index uint32) (*types.Block, error) {
 	return types.NewBlock(h, nil, nil), nil
 }
 
-func (e *e2eWorld) inSet(k uint64) bool { return int(k) < len(e.vals) && e.vals[k].flag != 3 }
+func (e *e2eWorld) inSet(k uint64, vt uint64) bool { return e.setFor(vt).in(k) }
 
 func (e *e2eWorld) blockID(b *types.Block) uint64 {
 	if b == nil {
@@ -258,13 +370,14 @@ func (e *e2eWorld) sortition(k uint64, index uint32, vt uint64) sortRes {
 		th = e.Tc
 	}
 	var res sortRes
-	if int(k) < len(e.vals) {
-		tot := e.total
-		if e.vals[k].flag == 1 {
-			tot = e.totalH
+	vs := e.setFor(vt)
+	if int(k) < len(vs.vals) {
+		tot := vs.total
+		if vs.vals[k].flag == 1 {
+			tot = vs.totalH
 		}
 		if tot > 0 && th <= tot {
-			_, proof, j := ucon.VrfSortition(e.vrfSk[k], e.seed, index, uint32(vt), th, new(big.Int).SetUint64(e.vals[k].stake), new(big.Int).SetUint64(tot))
+			_, proof, j := ucon.VrfSortition(e.vrfSk[k], e.seedFor(vt), index, uint32(vt), th, new(big.Int).SetUint64(vs.vals[k].stake), new(big.Int).SetUint64(tot))
 			res = sortRes{proof, j}
 		}
 	}
@@ -273,7 +386,8 @@ func (e *e2eWorld) sortition(k uint64, index uint32, vt uint64) sortRes {
 }
 
 func (e *e2eWorld) ownSortition(index uint32, vt uint64) (bool, uint32, []byte, params.ValidatorKind, uint64) {
-	if !e.inSet(0) || e.vals[0].flag != 0 || e.total == 0 {
+	vs := e.setFor(vt)
+	if !vs.in(0) || vs.vals[0].flag != 0 || vs.total == 0 {
 		return false, 0, nil, 0, 0
 	}
 	s := e.sortition(0, index, vt)
@@ -330,7 +444,7 @@ func (e *e2eWorld) prepareVote(w *world, a []uint64, m *ucon.VerifC03Msg) {
 	if e.bls {
 		// a BLS vote names its signer by the index in the look-back validator list and carries a BLS signature
 		m.VoterIdx = 9999
-		if idx, ok := e.st.GetValidators().GetIndex(crypto.PubkeyToAddress(keys[a[5]].PublicKey)); ok {
+		if idx, ok := e.setFor(a[0]).st.GetValidators().GetIndex(crypto.PubkeyToAddress(keys[a[5]].PublicKey)); ok {
 			m.VoterIdx = uint32(idx)
 		}
 		sig := e.blsSk[a[5]%uint64(len(e.blsSk))].Sign(ucon.VerifC03VotePayload(m.Hash, m.Round, m.RoundIndex)).Compress()
@@ -366,7 +480,7 @@ func (e *e2eWorld) afterDelivery(w *world, st ucon.VerifC03Step) {
 			if before != nil && after != nil && len(after.ChamberCommitters) < len(before.ChamberCommitters) {
 				w.led.fail(fmt.Sprintf("update_preserves_verification: the merge of block %d dropped committers (%d -> %d)", e.hid(ev.BlockHash), len(before.ChamberCommitters), len(after.ChamberCommitters)), "")
 			}
-			if err := e.srv.S.VerifySideChainHeader(&e.yp.CaravelParams, e.lb, e.st, e.lb, e.st, nb, []*types.Block{e.parent}); err != nil {
+			if err := e.srv.S.VerifySideChainHeader(&e.yp.CaravelParams, e.seedSet.hdr, e.stake.st, e.cseedSet.hdr, e.cstake.st, nb, []*types.Block{e.parent}); err != nil {
 				w.led.fail(fmt.Sprintf("update_preserves_verification: the header of block %d committed in index %d verified, but after Server.updateBlockHeader merged the votes of an UpdateExistedHeaderEvent for (%d,%d) the real VerifySideChainHeader rejects it: %v",
 					e.hid(ev.BlockHash), before.RoundIndex, u64(ev.Round), ev.RoundIndex, err), e.matchUpdate(before.RoundIndex, ev))
 				return
@@ -386,9 +500,10 @@ func (e *e2eWorld) lineFor(vt, r, i, h, p, sender, status uint64, tamper int, sr
 	s := e.sortition(sender, uint32(i), vt)
 	votes := uint64(s.j)
 	stakeOK, kind := uint64(1), uint64(1)
-	if !e.inSet(sender) || e.vals[sender].flag == 2 {
+	vs := e.setFor(vt)
+	if !vs.in(sender) || vs.vals[sender].flag == 2 {
 		stakeOK = 0
-	} else if e.vals[sender].flag == 1 {
+	} else if vs.vals[sender].flag == 1 {
 		kind = 2
 	}
 	th := e.T
@@ -411,7 +526,7 @@ func (e *e2eWorld) lineFor(vt, r, i, h, p, sender, status uint64, tamper int, sr
 		}
 	}
 	sigOK := 1
-	if e.bls && !e.inSet(sender) {
+	if e.bls && !vs.in(sender) {
 		sigOK = 0 // no index in the validator list: the BLS signer cannot be recovered
 	}
 	return fmt.Sprintf("V %d %d %d %d %d %d %d %d 0 %d 1 %d %d %d %d", vt, r, i, h, p, sender, votes, status, sigOK, stakeOK, kind, th, cred)
@@ -431,7 +546,7 @@ func (e *e2eWorld) verify(ev ucon.CommitEvent) {
 		e.lastOK, e.lastWhat = false, "Server.commit did not produce a block (PackVotes failed)"
 		return
 	}
-	err := e.srv.S.VerifySideChainHeader(&e.yp.CaravelParams, e.lb, e.st, e.lb, e.st, blk, []*types.Block{e.parent})
+	err := e.srv.S.VerifySideChainHeader(&e.yp.CaravelParams, e.seedSet.hdr, e.stake.st, e.cseedSet.hdr, e.cstake.st, blk, []*types.Block{e.parent})
 	if err != nil {
 		e.lastOK, e.lastWhat = false, "the real VerifySideChainHeader rejects the header assembled from the CommitEvent: "+err.Error()
 		return
@@ -444,12 +559,21 @@ func (e *e2eWorld) verify(ev ucon.CommitEvent) {
 // ---------------------------------------------------------------------------------------------------------------
 
 // genE2E builds an end-to-end history.
-func genE2E(r *vh.RNG, lag bool, blsWorld bool) []string {
+func genE2E(r *vh.RNG, lag bool, blsWorld bool, hist bool) []string {
 	n := r.Range(3, 7)
 	cert := r.Chance(50)
 	R := uint64(32768 * (1 + r.Intn(2)))
 	if !cert {
 		R = []uint64{32767, 40001, 9}[r.Intn(3)]
+	}
+	if hist {
+		// history world: the four look-back heights must be four different heights (2F < R for a certificate round)
+		n = r.Range(4, 7)
+		cert = r.Chance(70)
+		R = []uint64{65536, 98304}[r.Intn(2)]
+		if !cert {
+			R = []uint64{40001, 50001}[r.Intn(2)]
+		}
 	}
 	stakes := make([]uint64, n)
 	total := uint64(0)
@@ -480,12 +604,72 @@ func genE2E(r *vh.RNG, lag bool, blsWorld bool) []string {
 	if blsWorld {
 		tag = "E2EB"
 	}
-	hdr := fmt.Sprintf("%s %d %d %d %d", tag, r.Intn(250), T, Tc, R)
+	seedB := r.Intn(250)
+	var hs []string
+	if hist {
+		// distinct stakes, so that every re-ordering changes the sorted validator list (the BLS voter index)
+		vals := make([]uint64, n)
+		for k := range vals {
+			vals[k] = uint64(2 + k + r.Intn(2)*n)
+		}
+		perm := func() []uint64 {
+			p := append([]uint64{}, vals...)
+			for i := len(p) - 1; i > 0; i-- {
+				j := r.Intn(i + 1)
+				p[i], p[j] = p[j], p[i]
+			}
+			return p
+		}
+		copy(stakes, perm())
+		mk := func(role string) string {
+			st := perm()
+			l := "HS " + role
+			for k := range st {
+				fl := uint64(0)
+				if k >= 2 && r.Chance(12) {
+					fl = uint64(r.Range(2, 3))
+				}
+				if k == 0 && r.Chance(15) {
+					fl = 3
+				}
+				l += fmt.Sprintf(" %d", st[k]*4+fl)
+			}
+			return l
+		}
+		hs = []string{mk("seed"), mk("cstake"), mk("cseed"), mk("other")}
+		mkHdr := func(T, Tc uint64) string {
+			h := fmt.Sprintf("%s %d %d %d %d", tag, seedB, T, Tc, R)
+			for k := range stakes {
+				h += fmt.Sprintf(" %d", stakes[k]*4+flags[k])
+			}
+			return h
+		}
+		// thresholds = the chamber totals the real validator statistics report at the stake heights (p = 1: weight = stake)
+		w0, err := newE2EWorld(mkHdr(1, 1), hs...)
+		if err != nil {
+			return []string{mkHdr(1, 1)}
+		}
+		T, Tc = w0.e2e.stake.total, w0.e2e.cstake.total
+		if Tc == 0 {
+			Tc = 1
+		}
+		if r.Chance(20) {
+			T = T * uint64(r.Range(50, 95)) / 100
+			Tc = Tc * uint64(r.Range(50, 95)) / 100
+			if T == 0 {
+				T = 1
+			}
+			if Tc == 0 {
+				Tc = 1
+			}
+		}
+	}
+	hdr := fmt.Sprintf("%s %d %d %d %d", tag, seedB, T, Tc, R)
 	for k := range stakes {
 		hdr += fmt.Sprintf(" %d", stakes[k]*4+flags[k])
 	}
-	out := []string{hdr}
-	w, err := newE2EWorld(hdr)
+	out := append([]string{hdr}, hs...)
+	w, err := newE2EWorld(hdr, hs...)
 	if err != nil {
 		return out
 	}
@@ -655,7 +839,7 @@ func genE2EUpdate(r *vh.RNG, blsWorld bool) []string {
 func runE2E(c *vh.Ctx, drv *vh.Driver, do func(name string, lines []string, family string) scriptResult) error {
 	n := c.N(70, 900)
 	for k := 0; k < n; k++ {
-		lines := genE2E(c.R.Fork(), false, false)
+		lines := genE2E(c.R.Fork(), false, false, false)
 		rr := do("e2e", lines, "e2e-real-credentials")
 		if k == 0 {
 			c.Res.Sample(map[string]interface{}{"e2e_script": lines, "go_responses": strings.Split(strings.TrimSpace(rr.canon), "\n")})
@@ -665,7 +849,7 @@ func runE2E(c *vh.Ctx, drv *vh.Driver, do func(name string, lines []string, fami
 	// the same on the BLS path (EnableBls = true as in every shipped version): VoteBLSMgr.SignVote / getAddrFromVote,
 	// BlsVerifier.PackVotes / aggregateVotes, the BLS branch of verifyVotes with VerifyAggregatedOne
 	for k := 0; k < c.N(60, 700); k++ {
-		lines := genE2E(c.R.Fork(), false, true)
+		lines := genE2E(c.R.Fork(), false, true, false)
 		rr := do("e2e-bls", lines, "e2e-bls")
 		if k == 0 {
 			c.Res.Sample(map[string]interface{}{"e2e_bls_script": lines, "go_responses": strings.Split(strings.TrimSpace(rr.canon), "\n")})
@@ -674,9 +858,16 @@ func runE2E(c *vh.Ctx, drv *vh.Driver, do func(name string, lines []string, fami
 	}
 	// the Server's context runs ahead of the Voter's in the last index (verifySortition's leniency window, known finding F-C03b)
 	for k := 0; k < c.N(30, 300); k++ {
-		lines := genE2E(c.R.Fork(), true, k%2 == 1)
+		lines := genE2E(c.R.Fork(), true, k%2 == 1, false)
 		rr := do("e2e-lag", lines, "e2e-server-ahead")
 		c.Res.DistN("e2e-commits-verified-by-real-verifier", rr.commits)
+	}
+	// history worlds: the validator set (stake order, membership, online flags) and the seed differ between the four
+	// look-back heights (round - StakeLookBack / - SeedLookBack / - 2F / - F); two thirds on the BLS path
+	for k := 0; k < c.N(60, 700); k++ {
+		lines := genE2E(c.R.Fork(), false, k%3 != 0, true)
+		rr := do("e2e-hist", lines, "e2e-history-world")
+		c.Res.DistN("e2e-history-commits-verified-by-real-verifier", rr.commits)
 	}
 	// header updates: Server.updateBlockHeader merges later-arriving precommits; the merged header must still verify
 	for k := 0; k < c.N(30, 300); k++ {
